@@ -196,6 +196,13 @@ func (f changeFinder) walkStruct(from, to *value) bool {
 			// If the field is a Node, its range begins when the Node starts.
 			starts[i] = f.Pos()
 			lastEnd = f.End()
+
+			// Comments trailing the node belong to it, not to whatever
+			// follows (e.g. "package foo // comment" followed by the
+			// declarations).
+			if _, after := (changeFinder{}).commentsFor(f); len(after) > 0 {
+				lastEnd = after[len(after)-1].End()
+			}
 		case f.Type() == goast.PosType:
 			// If the field is a token.Pos, its range begins based on whatever
 			// its value is.
